@@ -1,14 +1,20 @@
 (* Model/Integrity.v — executable model of internal/storage/integrity/validator.go:
    findPartStore (reflective search over struct fields), ValidateAll (report / delete loop),
-   validateObject, verifyPartChecksums, verifyObjectChecksums.  Digests are symbolic: a number
-   stands for "all digests of one byte string" (equal numbers <-> equal bytes); an object ETag is
-   either the digest of its only part (PutObject) or the multipart form derived from the recorded
-   part ETags ("md5-of-md5s-N").  No proofs here. *)
+   validateObject, verifyPartChecksums, verifyObjectChecksums, and of how the storage records object
+   checksums for the object kinds the harness builds (PutObject, multipart FULL_OBJECT / COMPOSITE,
+   AppendObject, full and ranged CopyObject, content-deduplicated parts).
+   Digests are symbolic: a number stands for "all digests of one byte string" (equal numbers <-> equal
+   bytes).  Object-level values: ETag = digest of the only part | md5-of-md5s with a "-N" suffix;
+   a checksum field (CRC32 stands for the CRC family, SHA256 for the SHA family) = plain digest |
+   composite (digest of the part digests, "-N") | combined (CRC combine = CRC of the concatenation).
+   No proofs here. *)
 From Verif Require Import Bytes Codec.
 
-Inductive etag := Single (d : N) | Multi (ds : list N).
+Inductive ctype := TFull | TComp.
+Inductive etag := Single (d : N) | Multi (ds : list N) (n : nat) | Garbled.
+Inductive cks := Plain (d : N) | Comp (ds : list N) (n : nat) | Comb (ds : list N) | GarbledC.
 Record part := { rec : N; actual : option N }.       (* recorded digest; digest of the stored bytes / GetPart fails *)
-Record obj := { oetag : etag; parts : list part }.
+Record obj := { otype : ctype; oetag : etag; ocrc : option cks; osha : option cks; parts : list part }.
 
 Fixpoint Ns_eqb (a b : list N) : bool :=
   match a, b with
@@ -19,20 +25,44 @@ Fixpoint Ns_eqb (a b : list N) : bool :=
 Definition etag_eqb (a b : etag) : bool :=
   match a, b with
   | Single x, Single y => (x =? y)%N
-  | Multi x, Multi y => Ns_eqb x y
+  | Multi x n, Multi y k => Ns_eqb x y && Nat.eqb n k
   | _, _ => false
   end.
+Definition cks_eqb (a b : cks) : bool :=
+  match a, b with
+  | Plain x, Plain y => (x =? y)%N
+  | Comp x n, Comp y k => Ns_eqb x y && Nat.eqb n k
+  | Comb x, Comb y => Ns_eqb x y
+  | _, _ => false
+  end.
+(* CRC combine over the parts; the combine of one part is that part's plain CRC *)
+Definition mk_comb (ds : list N) : cks := match ds with [d] => Plain d | _ => Comb ds end.
+Definition calc_comb (ds : list N) : option cks := match ds with [] => None | _ => Some (mk_comb ds) end.
+
+(* "if recorded != nil && calculated != nil { must be equal }" *)
+Definition opt_match (recorded calculated : option cks) : bool :=
+  match recorded, calculated with Some a, Some b => cks_eqb a b | _, _ => true end.
 
 (* GetPart + CalculateChecksumsStreaming + verifyPartChecksums *)
 Definition part_ok (p : part) : bool :=
   match actual p with Some a => (a =? rec p)%N | None => false end.
 
-(* verifyObjectChecksums: exactly one part -> the object's ETag against the calculated part ETag;
-   otherwise the object's ETag against CalculateMultipartChecksums of the RECORDED part ETags *)
+(* verifyObjectChecksums: exactly one part -> the object's values against the calculated part values;
+   otherwise against CalculateMultipartChecksums(RECORDED part values, the object's checksum type) *)
 Definition object_ok (o : obj) : bool :=
   match parts o with
-  | [p] => match actual p with Some a => etag_eqb (oetag o) (Single a) | None => false end
-  | ps => etag_eqb (oetag o) (Multi (map rec ps))
+  | [p] => match actual p with
+           | Some a => etag_eqb (oetag o) (Single a) && opt_match (ocrc o) (Some (Plain a))
+                       && opt_match (osha o) (Some (Plain a))
+           | None => false
+           end
+  | ps => let recs := map rec ps in
+          let n := length ps in
+          etag_eqb (oetag o) (Multi recs n) &&
+          match otype o with
+          | TComp => opt_match (ocrc o) (Some (Comp recs n)) && opt_match (osha o) (Some (Comp recs n))
+          | TFull => opt_match (ocrc o) (calc_comb recs)
+          end
   end.
 
 (* validateObject: Success *)
@@ -56,47 +86,125 @@ Definition validate_all (l : layout) (del : bool) (objs : list obj) : option (li
     Some (map (fun o => let s := validate_object o in (s, negb s && del)) objs)
   else None.
 
-(* report counters: TotalObjects / FailedObjects / DeletedObjects *)
+(* ---- how the storage records objects (what the harness builds) -------------------------------- *)
+(* the state of the part files: a content id (= part file, parts are deduplicated by content) that was
+   modified maps to its new digest (Some) or to "file gone" (None) *)
+Definition world := list (N * option N).
+Fixpoint wfind (w : world) (id : N) : option (option N) :=
+  match w with [] => None | (k, v) :: w' => if (k =? id)%N then Some v else wfind w' id end.
+Definition resolve (w : world) (id : N) : part :=
+  {| rec := id; actual := match wfind w id with None => Some id | Some v => v end |}.
+
+(* object records before the part files are looked at: the content ids of the parts *)
+Record spec := { stype : ctype; setag : etag; scrc : option cks; ssha : option cks; sids : list N }.
+Definition put_spec (id : N) : spec :=
+  {| stype := TFull; setag := Single id; scrc := Some (Plain id); ssha := Some (Plain id); sids := [id] |}.
+Definition multipart_spec (t : ctype) (ids : list N) : spec :=
+  let n := length ids in
+  match t with
+  | TComp => {| stype := TComp; setag := Multi ids n; scrc := Some (Comp ids n); ssha := Some (Comp ids n); sids := ids |}
+  | TFull => {| stype := TFull; setag := Multi ids n; scrc := calc_comb ids; ssha := None; sids := ids |}
+  end.
+Definition append_spec (ids : list N) : spec :=
+  {| stype := TFull; setag := Multi ids (length ids); scrc := None; ssha := None; sids := ids |}.
+Definition to_obj (w : world) (s : spec) : obj :=
+  {| otype := stype s; oetag := setag s; ocrc := scrc s; osha := ssha s; parts := map (resolve w) (sids s) |}.
+
+(* tampering with the recorded object values *)
+Definition tamper (c : byte) (s : spec) : spec :=
+  if beqb c "e"%byte then {| stype := stype s; setag := Garbled; scrc := scrc s; ssha := ssha s; sids := sids s |}
+  else if beqb c "c"%byte then
+    {| stype := stype s; setag := setag s; scrc := match scrc s with Some _ => Some GarbledC | None => None end;
+       ssha := ssha s; sids := sids s |}
+  else if beqb c "n"%byte then
+    {| stype := stype s;
+       setag := match setag s with Multi ds _ => Multi ds 9 | _ => Garbled end;
+       scrc := match scrc s with Some (Comp ds _) => Some (Comp ds 9) | x => x end;
+       ssha := ssha s; sids := sids s |}
+  else if beqb c "t"%byte then
+    {| stype := match stype s with TFull => TComp | TComp => TFull end;
+       setag := setag s; scrc := scrc s; ssha := ssha s; sids := sids s |}
+  else s.
+
+(* ---- line protocol (see harness/c39.go) ---- *)
+Definition dummy_spec : spec := put_spec 0.
+Definition ids_from (base : N) (offs : list N) : list N := map (fun o => (base + o)%N) offs.
+Definition kind_spec (sofar : list spec) (i : nat) (kind : bytes) : option spec :=
+  let base := (1000 * N.of_nat (S i))%N in
+  match kind with
+  | [] => None
+  | c :: rest =>
+    if bytes_eqb kind B"S" then Some (put_spec base)
+    else if bytes_eqb kind B"E" then Some (put_spec 2)
+    else if bytes_eqb kind B"A" then Some (append_spec (ids_from base [0; 14]%N))
+    else if bytes_eqb kind B"A1" then Some (append_spec (ids_from base [14]%N))
+    else if bytes_eqb kind B"AC" then Some (append_spec (ids_from base [0; 2; 14]%N))
+    else match parse_nat rest with
+    | None => None
+    | Some j =>
+      if beqb c "M"%byte || beqb c "F"%byte then Some (multipart_spec TFull (ids_from base (map (fun p => (2 * N.of_nat p)%N) (seq 0 j))))
+      else if beqb c "C"%byte then Some (multipart_spec TComp (ids_from base (map (fun p => (2 * N.of_nat p)%N) (seq 0 j))))
+      else
+        let src := nth j sofar dummy_spec in
+        if (length sofar <=? j) then None
+        else if beqb c "T"%byte then Some (put_spec (hd 0%N (sids src)))
+        else if beqb c "K"%byte then Some src
+        else if beqb c "R"%byte then
+          Some (put_spec (match sids src with [id] => id | _ => base end))
+        else if beqb c "P"%byte then Some (put_spec (base + 500)%N)
+        else None
+    end
+  end.
+
+(* the first fault that reaches a part file wins; flipping/truncating the empty file (id 2) changes nothing *)
+Fixpoint apply_faults (w : world) (ids : list N) (faults : bytes) : world :=
+  match ids, faults with
+  | id :: ids', f :: faults' =>
+      let w' := if beqb f "N"%byte then w
+                else match wfind w id with
+                     | Some _ => w
+                     | None => if beqb f "X"%byte then (id, None) :: w
+                               else if (id =? 2)%N then w else (id, Some (id + 1)%N) :: w
+                     end in
+      apply_faults w' ids' faults'
+  | _, _ => w
+  end.
+
+(* pass 1: specs (untampered, so that copies see the source as created); pass 2: faults and tampering *)
+Fixpoint build_specs (sofar : list spec) (i : nat) (ts : list bytes) : option (list spec) :=
+  match ts with
+  | [] => Some sofar
+  | t :: ts' => match split_on ":"%byte t with
+                | kd :: _ => match kind_spec sofar i kd with
+                             | Some s => build_specs (sofar ++ [s]) (S i) ts'
+                             | None => None
+                             end
+                | [] => None
+                end
+  end.
+Fixpoint faults_and_tampers (w : world) (specs : list spec) (ts : list bytes) : world * list spec :=
+  match specs, ts with
+  | s :: specs', t :: ts' =>
+      let f := split_on ":"%byte t in
+      let w' := apply_faults w (sids s) (nth 1 f []) in
+      let s' := match nth 2 f [] with c :: _ => tamper c s | [] => s end in
+      let r := faults_and_tampers w' specs' ts' in
+      (fst r, s' :: snd r)
+  | _, _ => (w, [])
+  end.
+
 Definition count_true (l : list bool) : nat := length (filter (fun b => b) l).
 Definition show_counts (rs : list (bool * bool)) : bytes :=
   show_nat (length rs) ++ B"/" ++ show_nat (count_true (map (fun r : bool * bool => negb (fst r)) rs))
   ++ B"/" ++ show_nat (count_true (map (fun r : bool * bool => snd r) rs)).
 
-(* ---- line protocol:  <V|D> <kind>:<faults>,...   ->   <ValidateAll>:<counts> | <per object> ---- *)
-Definition mk_parts (base : N) (faults : bytes) : list part :=
-  map (fun jf => let r := (base + 2 * N.of_nat (fst jf))%N in
-                 {| rec := r;
-                    actual := if beqb (snd jf) "X"%byte then None
-                              else if beqb (snd jf) "N"%byte then Some r else Some (r + 1)%N |})
-      (combine (seq 0 (length faults)) faults).
-(* the storage deduplicates parts by content: all empty objects of a case reference ONE part
-   (digest 1); it is gone as soon as one of them has its part file deleted; flipping / truncating an
-   empty file changes nothing *)
-Definition mk_obj (e_gone : bool) (i : nat) (kind faults : bytes) : obj :=
-  let base := (100 * N.of_nat (S i))%N in
-  if bytes_eqb kind B"E" then
-    {| oetag := Single 1; parts := [{| rec := 1%N; actual := if e_gone then None else Some 1%N |}] |}
-  else if bytes_eqb kind B"S" then {| oetag := Single base; parts := mk_parts base faults |}
-  else let ps := mk_parts base faults in {| oetag := Multi (map rec ps); parts := ps |}.
-
-Fixpoint mk_objs (e_gone : bool) (i : nat) (ts : list bytes) : option (list obj) :=
-  match ts with
-  | [] => Some []
-  | t :: ts' => match split_on ":"%byte t with
-                | [kd; fl] => match mk_objs e_gone (S i) ts' with
-                              | Some os => Some (mk_obj e_gone i kd fl :: os)
-                              | None => None
-                              end
-                | _ => None
-                end
-  end.
-
 Definition run_line (l : bytes) : bytes :=
   match tokens l with
   | [md; os] =>
       let ts := split_on ","%byte os in
-      let e_gone := existsb (fun t => is_prefix B"E:" t && negb (Nat.eqb (count_byte "X"%byte t) 0)) ts in
-      do objs <- mk_objs e_gone 0 ts;
+      do specs <- build_specs [] 0 ts;
+      let ws := faults_and_tampers [] specs ts in
+      let objs := map (to_obj (fst ws)) (snd ws) in
       let del := bytes_eqb md B"D" in
       let va := match validate_all current_layout del objs with
                 | None => B"ERR"
